@@ -21,10 +21,13 @@ var (
 )
 
 // newWorld builds a rig on a fresh real chain.Manager at genesis of the v2 regime.
-func newWorld() *rhpx.World {
+func newWorld() *rhpx.World { return newWorldWith(false) }
+
+// newWorldWith selects the contractor: the in-repo reference contractor, or the trusting one.
+func newWorldWith(trusting bool) *rhpx.World {
 	baseOnce.Do(func() { baseU = univ.NewUniverse("rhp", univ.RegimeV2) })
 	n := node.New(baseU)
-	return rhpx.NewWorld(n.CM, nil)
+	return rhpx.NewWorldWith(n.CM, nil, trusting)
 }
 
 var ctx = context.Background()
@@ -172,3 +175,16 @@ func rawAppend(w *rhpx.World, c rhp.ContractRevision, roots []types.Hash256, sto
 }
 
 var _ net.Conn
+
+func goid() int64 {
+	var buf [64]byte
+	n := runtime.Stack(buf[:], false)
+	var id int64
+	for _, c := range buf[10:n] {
+		if c < '0' || c > '9' {
+			break
+		}
+		id = id*10 + int64(c-'0')
+	}
+	return id
+}
